@@ -220,6 +220,18 @@ CHECKS = {
         design_ref="DESIGN.md 5 C04",
         note=NOTE_COMMON + " Intensities are logged in fixed point (1e-3 of a unit) with a 2e-5 relative slack.",
     ),
+    "C10": dict(
+        text=("TLC explores PotentialBuildImpl (the eager build loop writing each ensemble member's slices at the member's own "
+              "index, and slice generation that counts every slice - incl. the crystal potential's unit x repetition loop - and "
+              "yields only the window) for every kind, 1-3 members, up to 4 (thorough 6) slices and every window 0 <= first < "
+              "last <= n, checking BuiltOK and WindowOK over symbolic slice values; every case is realised with Potential, "
+              "PotentialArray and CrystalPotential, with and without frozen phonons, and PotentialBuildTrace.tla decides lazy = "
+              "eager per member, member k = potential of configuration k (independent build), and that generate_slices(first, "
+              "last) is exactly full[first:last] (identified by exact array equality) with equal exit-plane tags and thicknesses."),
+        technique="TLA+ loop model with symbolic slices (TLC) + TLC-enumerated windows on the real potentials + TLC trace validation",
+        design_ref="DESIGN.md 5 C10",
+        note=NOTE_COMMON + " build() is exercised for the full slice range only (windowed lazy build is outside the statement; it currently raises and is noted as growth).",
+    ),
 }
 
 NOT_APPLICABLE = {
